@@ -69,6 +69,7 @@ class Engine:
         self.max_paths = max_paths
         self.conc_limit = conc_limit      # max distinct values enumerated at one concretisation point
         self.conc_small = conc_small      # values 0..conc_small-1 are preferred / enumerated first
+        self.conc_prefer = []             # further preferred values (tried after the small ones)
         self.max_decisions = max_decisions
         self.query_timeout_ms = query_timeout_ms
         self.seed = seed
@@ -131,12 +132,26 @@ class Engine:
             return
         self.solver.add(c)
         self.pc.append(c)
+        self._note_literals(c)
         if self._model is not None:
             try:
                 if not z3.is_true(self._model.eval(c, model_completion=True)):
                     self._model = None
             except z3.Z3Exception:
                 self._model = None
+
+    def _note_literals(self, c):
+        """remember asserted literals so that a later decision on the same literal needs no solver call"""
+        st = [c]
+        while st:
+            x = st.pop()
+            if z3.is_and(x):
+                st.extend(x.children())
+                continue
+            self._lit_true[x.get_id()] = x
+            if z3.is_not(x):
+                y = x.arg(0)
+                self._lit_false[y.get_id()] = y
 
     def _sat_with_model(self, c):
         """is pc ∧ c satisfiable; uses and refreshes the cached model"""
@@ -169,6 +184,10 @@ class Engine:
         ck = c.get_id()
         if ck in self._decided:
             return self._decided[ck]
+        if ck in self._lit_true:
+            return True
+        if ck in self._lit_false:
+            return False
         r = self._decide(c)
         self._decided[ck] = r
         self._keep.append(c)
@@ -266,7 +285,8 @@ class Engine:
         limit = self.conc_limit if limit is None else limit
         small = self.conc_small if small is None else small
         v = None
-        for i in range(small):
+        prefer = list(range(small)) + [x for x in self.conc_prefer if x >= small or x < 0]
+        for i in prefer:
             if self._sat_with_model(t == i):
                 v = i
                 break
@@ -285,7 +305,7 @@ class Engine:
             self.trail.append(['v', v, None])
         else:
             self.trail.append(['v', v, {'t': t, 'pre': list(self.pc), 'tried': [v], 'limit': limit,
-                                        'small': small, 'solver': None}])
+                                        'small': prefer, 'solver': None}])
         self.pos += 1
         self._model = None
         self.assume(t == v)
@@ -312,7 +332,7 @@ class Engine:
                 self.truncated.append(('unknown', str(t)[:80]))
             return False
         v = None
-        for i in range(st['small']):
+        for i in st['small']:
             if i in st['tried']:
                 continue
             r = s.check(t == i)
@@ -351,6 +371,8 @@ class Engine:
             self._alt_model = None
             self._uniq = {}
             self._decided = {}
+            self._lit_true = {}
+            self._lit_false = {}
             self._keep = []
             self._pathdec = 0
             self.path_trunc = []
